@@ -40,9 +40,29 @@ pub trait Alg: Sync + Send + 'static {
     fn elem(idx: usize, fresh: &mut u32) -> Self::E;
     /// the item a user stores for element e
     fn item(e: &Self::E) -> Self::T;
+    /// the same for array position i (items that record their absolute position)
+    fn item_at(e: &Self::E, _i: usize) -> Self::T {
+        Self::item(e)
+    }
+    /// the idx-th modifier of the alphabet for a modification whose range starts at l
+    fn modifier(idx: usize, _l: usize) -> Self::M {
+        Self::mods().swap_remove(idx)
+    }
+    fn dirty_item_at(e: &Self::E, _i: usize) -> Option<Self::T> {
+        Self::dirty_item(e)
+    }
+    /// can a tree be built by `new(n, value)` (copies of ONE item)?  Not for items that record their position.
+    fn fillable() -> bool {
+        true
+    }
     fn mods() -> Vec<Self::M>;
     /// the modifier applied to ONE element of the plain array
     fn apply(e: &mut Self::E, m: &Self::M);
+    /// the same for the k-th element (0-based) of the modified range: modifiers such as "add an arithmetic
+    /// progression" act on each covered element individually but depend on its offset in the range
+    fn apply_at(e: &mut Self::E, m: &Self::M, _k: usize) {
+        Self::apply(e, m)
+    }
     /// left-to-right merge of a slice of the plain array, as observed
     fn fold(xs: &[Self::E]) -> Self::Obs;
     fn observe(t: &Self::T) -> Self::Obs;
@@ -955,3 +975,125 @@ macro_rules! rec_alg {
 }
 rec_alg!(AlgMinRec, Min, "Min<record compared by key only>", min, VLe, <=);
 rec_alg!(AlgMaxRec, Max, "Max<record compared by key only>", max, VGe, >=);
+
+// ------------------------------------------------------------------------------------------------
+// AP: "add an arithmetic progression on a range" over Z5.  A modifier (l, s, d) adds s + d*(i - l) to the
+// element at absolute index i >= l.  Items record the absolute index of their first element; the pending
+// tag is kept RELATIVE to that index, so `push` treats its two children differently (the right child
+// continues the progression after the left child's elements).
+
+#[derive(Clone, Debug, PartialEq)]
+pub struct Ap {
+    pub lo: u8,
+    pub vals: Vec<u8>,
+    /// pending progression (start, step) mod 5, relative to `lo`
+    pub tag: (u8, u8),
+}
+
+impl Default for Ap {
+    fn default() -> Self {
+        Ap { lo: 0, vals: vec![], tag: (0, 0) }
+    }
+}
+
+impl Ap {
+    fn add_rel(&mut self, s: usize, d: usize) {
+        for (k, v) in self.vals.iter_mut().enumerate() {
+            *v = ((*v as usize + s + d * k) % 5) as u8;
+        }
+        if self.vals.len() >= 2 {
+            self.tag = (((self.tag.0 as usize + s) % 5) as u8, ((self.tag.1 as usize + d) % 5) as u8);
+        }
+    }
+}
+
+impl SegtreeItem<(u8, u8, u8)> for Ap {
+    fn merge(l: &Self, r: &Self) -> Self {
+        let mut vals = l.vals.clone();
+        vals.extend_from_slice(&r.vals);
+        vals.truncate(64);
+        Ap { lo: if l.vals.is_empty() { r.lo } else { l.lo }, vals, tag: (0, 0) }
+    }
+    fn modify(&mut self, m: &(u8, u8, u8)) {
+        // this node lies inside the modified range, so lo >= l
+        let off = (self.lo as usize).wrapping_sub(m.0 as usize) % 5;
+        self.add_rel((m.1 as usize + m.2 as usize * off) % 5, m.2 as usize);
+    }
+    fn push(&mut self, l: &mut Self, r: &mut Self) {
+        if self.tag != (0, 0) {
+            let (s, d) = (self.tag.0 as usize, self.tag.1 as usize);
+            l.add_rel(s, d);
+            r.add_rel((s + d * l.vals.len()) % 5, d);
+            self.tag = (0, 0);
+        }
+    }
+}
+
+pub struct AlgAp;
+
+impl Alg for AlgAp {
+    type T = Ap;
+    type M = (u8, u8, u8);
+    type E = u8;
+    type Obs = Vec<u8>;
+    const NAME: &'static str = "AP(words over Z5; add an arithmetic progression - asymmetric push)";
+    fn n_elems() -> usize {
+        2
+    }
+    fn elem(idx: usize, _f: &mut u32) -> u8 {
+        idx as u8
+    }
+    fn item(_e: &u8) -> Ap {
+        unreachable!("AP items are built through item_at")
+    }
+    fn item_at(e: &u8, i: usize) -> Ap {
+        Ap { lo: i as u8, vals: vec![*e], tag: (0, 0) }
+    }
+    fn fillable() -> bool {
+        false
+    }
+    fn dirty_item_at(e: &u8, i: usize) -> Option<Ap> {
+        Some(Ap { lo: i as u8, vals: vec![*e], tag: (1, 2) })
+    }
+    fn mods() -> Vec<(u8, u8, u8)> {
+        vec![(0, 0, 1), (0, 1, 0), (0, 2, 3)]
+    }
+    fn modifier(idx: usize, l: usize) -> (u8, u8, u8) {
+        let m = Self::mods()[idx];
+        (l as u8, m.1, m.2)
+    }
+    fn apply(_e: &mut u8, _m: &(u8, u8, u8)) {
+        unreachable!("AP modifiers are applied through apply_at")
+    }
+    fn apply_at(e: &mut u8, m: &(u8, u8, u8), k: usize) {
+        *e = ((*e as usize + m.1 as usize + m.2 as usize * k) % 5) as u8;
+    }
+    fn fold(xs: &[u8]) -> Vec<u8> {
+        xs.to_vec()
+    }
+    fn observe(t: &Ap) -> Vec<u8> {
+        t.vals.clone()
+    }
+    fn obs_len(o: &Vec<u8>) -> Option<usize> {
+        Some(o.len())
+    }
+    fn preds(n: usize) -> Vec<Pred> {
+        vec![Pred::LenGe(0), Pred::LenGe(1), Pred::LenGe(2), Pred::LenGe(n as u16), Pred::LenGe(n as u16 + 1), Pred::HasOne]
+    }
+    fn holds(p: &Pred, o: &Vec<u8>) -> bool {
+        match p {
+            Pred::LenGe(k) => o.len() >= *k as usize,
+            Pred::HasOne => o.contains(&1),
+            _ => unreachable!(),
+        }
+    }
+    fn encode(t: &Ap, out: &mut Vec<u8>) {
+        out.push(t.vals.len() as u8);
+        out.push(if t.vals.is_empty() { 0 } else { t.lo });
+        out.extend_from_slice(&t.vals);
+        out.push(t.tag.0 * 5 + t.tag.1);
+    }
+    fn encode_elem(e: &u8, out: &mut Vec<u8>) {
+        out.push(*e);
+    }
+}
